@@ -788,3 +788,43 @@ Theorem C17_dedup_checker_on_model :
            (map (inv_on pi (List.length r)) (seqN (List.length r)))) = true.
 Proof. exact V.Proofs.DedupChecker.dedup_checker_on_model. Qed.
 Print Assumptions C17_dedup_checker_on_model.
+
+(** ** "[Ok] implies [Ok]" (Proofs/GenerateOkTransfer.v): the item [C17_permutation_tokens] lists as
+    not proved, under the hypothesis that makes it true.  Generation with the REAL comparison stays
+    successful under every renumbering when [types_equal] is an equivalence relation on every
+    same-path family of [r] ([teq_equiv_on_families]; F1 / F3 / F14 / F18 are its failures): the
+    loop compares each item-eligible entry with the first earlier one of its path, and on an
+    equivalence "all equal to the first" is "pairwise equal", whatever the order.  PARTIAL: that
+    hypothesis; and one direction (the converse is this statement for the inverse renumbering,
+    which exists as a renumbering of [renumber pi r] only for closed registries). *)
+From V Require Proofs.GenerateOkTransfer.
+
+Theorem C17_generate_ok_transfer_partial :
+  forall pi r s m,
+    renumbering (N.of_nat (List.length r)) pi ->
+    V.Model.DedupPerm.teq_equiv_on_families r ->
+    generate r s (types_equal r) = Ok m ->
+    exists m', generate (renumber pi r) s (types_equal (renumber pi r)) = Ok m'.
+Proof. exact V.Proofs.GenerateOkTransfer.generate_ok_transfer. Qed.
+Print Assumptions C17_generate_ok_transfer_partial.
+
+(** ... with [C17_permutation_tokens]: successful AND token-identical *)
+Theorem C17_permutation_outcome_partial :
+  forall pi r s m1,
+    renumbering (N.of_nat (List.length r)) pi ->
+    skeleton_consistent r s -> docs_consistent r s -> derives_functional s ->
+    V.Model.DedupPerm.teq_equiv_on_familiesb r = true ->
+    generate r s (types_equal r) = Ok m1 ->
+    exists m2, generate (renumber pi r) s (types_equal (renumber pi r)) = Ok m2 /\
+               emit_module s m1 = emit_module s m2.
+Proof. exact V.Proofs.GenerateOkTransfer.permutation_outcome. Qed.
+Print Assumptions C17_permutation_outcome_partial.
+
+Theorem C17_permutation_outcome_satisfiable :
+  exists pi r s,
+    renumbering (N.of_nat (List.length r)) pi /\
+    skeleton_consistentb r s = true /\ docs_consistentb r s = true /\ derives_functionalb s = true /\
+    V.Model.DedupPerm.teq_equiv_on_familiesb r = true /\ ~ unique_item_paths r s /\
+    is_ok (generate r s (types_equal r)) = true.
+Proof. exact V.Proofs.GenerateOkTransfer.permutation_outcome_satisfiable. Qed.
+Print Assumptions C17_permutation_outcome_satisfiable.
